@@ -319,7 +319,7 @@ func derivesFromCallN(f *ir.Func, e ast.Node, pred func(ir.Call) bool, depth int
 			return true
 		}
 		obj, _ := f.ObjOf(id).(*types.Var)
-		if obj == nil || obj.IsField() || obj.Parent() == nil || obj.Parent() == obj.Pkg().Scope() {
+		if obj == nil || obj.IsField() || (obj.Parent() != nil && obj.Pkg() != nil && obj.Parent() == obj.Pkg().Scope()) { // (variables made by the expansion have no scope)
 			return true
 		}
 		defs := wholeDefs(f, obj)
